@@ -27,12 +27,24 @@ type SpecCtx struct {
 	failed   bool
 	depth    int
 	block    *ssa.BasicBlock // loop header whose phis take precedence when a name is ambiguous
+	qdepth   int             // nesting depth of quantifiers (bound names are made unique per depth)
+	totalAs  bool            // inside a modifies expression: x as *T is nil when x holds another type
+	asGuards *[]string       // dynamic-type conditions met while evaluating a modifies expression
 	callArgs []Val           // atcall context: arg0, arg1, ... denote the actual arguments
 	locals   bool            // loop context: a name denotes the current value of the local variable, not the parameter's entry value
 }
 
 func (f *Frame) specCtx(h *Heap, env map[ssa.Value]Val) *SpecCtx {
 	return &SpecCtx{f: f, fn: f.fn, params: f.params, heap: h, old: f.entry, binds: f.lets, env: env, pkg: pkgOf(f.fn)}
+}
+
+// qname: the SMT name of a bound variable; nested quantifiers (also through predicate
+// expansion) get distinct names so that an inner binder never captures an outer variable.
+func (c *SpecCtx) qname(name string) string {
+	if c.qdepth == 0 {
+		return "q!" + name
+	}
+	return fmt.Sprintf("q!%s!%d", name, c.qdepth)
 }
 
 func (c *SpecCtx) errorf(format string, a ...any) {
@@ -601,11 +613,12 @@ func (c *SpecCtx) eval(e SExpr) Val {
 		var decl []string
 		for _, b := range x.Vars {
 			t, s := c.resolveType(b.Sort)
-			n := "q!" + b.Name
+			n := c.qname(b.Name)
 			binds[b.Name] = Val{S: s, E: n, T: t}
 			decl = append(decl, fmt.Sprintf("(%s %s)", n, s))
 		}
 		sub := c.with(binds)
+		sub.qdepth = c.qdepth + 1
 		// Index shift (DESIGN §8.4): a quantifier "forall k :: { s[k] } ..." over a slice s is
 		// re-keyed by the absolute cell index j = lo(s) + k, so that its pattern is the plain
 		// (select row j) without arithmetic; k becomes j - lo(s) in the body.
@@ -654,7 +667,7 @@ func (c *SpecCtx) eval(e SExpr) Val {
 				}
 			}
 			if ok && shiftLo != "" {
-				j := "q!" + kname
+				j := c.qname(kname)
 				sub.binds[kname] = Val{S: "Int", E: app("-", j, shiftLo), T: types.Typ[types.Int]}
 			}
 		}
@@ -715,6 +728,17 @@ func (c *SpecCtx) eval(e SExpr) Val {
 			return v
 		}
 		u.registerBoxed(t)
+		if c.totalAs {
+			// in a frame (modifies) expression a view of the wrong dynamic type designates nothing:
+			// the nil pointer, whose row is never read
+			if _, isPtr := t.(*types.Pointer); isPtr {
+				isT := app("(_ is "+u.boxName(t)+")", v.E)
+				if c.asGuards != nil {
+					*c.asGuards = append(*c.asGuards, isT)
+				}
+				return c.f.en.mkVal(t, ite(isT, app(u.unboxName(t), v.E), nilPtr))
+			}
+		}
 		return c.f.en.mkVal(t, app(u.unboxName(t), v.E))
 	case SCall:
 		return c.evalCall(x)
@@ -1283,6 +1307,24 @@ type lvTarget struct {
 
 // lvalueTargets evaluates a modifies entry into heap targets.
 func (c *SpecCtx) lvalueTargets(e SExpr) ([]lvTarget, bool) {
+	if !c.totalAs {
+		// a target reached through a type view (x as *T) exists only when x holds a *T; otherwise
+		// the entry designates nothing (the null row, which holds no object)
+		n := *c
+		n.totalAs = true
+		var gs []string
+		n.asGuards = &gs
+		ts, ok := n.lvalueTargets(e)
+		if ok && len(gs) > 0 {
+			g := and(gs...)
+			for i := range ts {
+				if ts[i].ref != "" {
+					ts[i].ref = ite(g, ts[i].ref, "0")
+				}
+			}
+		}
+		return ts, ok
+	}
 	u := c.f.en.u
 	switch x := e.(type) {
 	case SField:
